@@ -106,8 +106,9 @@ pub fn generate(prop: &str, tier: &str, r: &mut Rng, out: &mut Vec<String>) -> G
             crate::gen2::option_texts(out, r, if thorough { 300_000 } else { 5_000 });
             {
                 // the real binary against the scripted printer
-                let runs = if thorough { 400 } else { 40 };
-                let opt_texts = ["copies=2", "fit=true", "sides=two-sided-long-edge", "a=b=c", "noequals", "x=-17", "big=99999999999", "e=", "q=+5", "draft=false", "media=iso_a4_210x297mm", "t=True"];
+                let runs = if thorough { 600 } else { 80 };
+                let opt_texts = ["copies=2", "fit=true", "sides=two-sided-long-edge", "a=b=c", "noequals", "x=-17", "big=99999999999", "e=", "q=+5", "draft=false", "media=iso_a4_210x297mm", "t=True",
+                    "job-hint=a=b", "pad=12=", "margin==7", "k=v=", "flag=true=1", "n=7=7", "eq===", "copies=2147483647", "copies=-2147483648", "copies=2147483648", "z=007", "sp= 5", "copies=3"];
                 for i in 0..runs {
                     let mut rr = r.fork();
                     let mut a: Vec<String> = vec![];
@@ -120,7 +121,7 @@ pub fn generate(prop: &str, tier: &str, r: &mut Rng, out: &mut Vec<String>) -> G
                     if rr.chance(1, 2) {
                         a.push(format!("(u {})", hex(*rr.pick(&["alice".as_bytes(), "bob smith".as_bytes(), "é".as_bytes()]))));
                     }
-                    for _ in 0..rr.below(4) {
+                    for _ in 0..rr.below(5) {
                         a.push(format!("(o {})", hex(rr.pick(&opt_texts).as_bytes())));
                     }
                     let dlen = match rr.below(5) { 0 => 0, 1 => 1, 2 => rr.range(2, 500) as usize, 3 => rr.range(500, 70_000) as usize, _ => if thorough { rr.range(1 << 20, 3 << 20) as usize } else { rr.range(70_000, 300_000) as usize } };
@@ -132,7 +133,13 @@ pub fn generate(prop: &str, tier: &str, r: &mut Rng, out: &mut Vec<String>) -> G
                             k => {
                                 let status: u16 = if k == 1 { *rr.pick(&[0x0400u16, 0x0507, 0x0503]) } else { *rr.pick(&[0u16, 0, 1, 2]) };
                                 let state = *rr.pick(&[3i32, 4, 5, 3, 4]);
-                                let mut attrs = vec![("printer-state".to_string(), ipp::prelude::IppValue::Enum(state))];
+                                // printer-state as an enum, or absent / an integer / outside 3..5 (then only the reasons decide)
+                                let mut attrs = match rr.below(8) {
+                                    0 => vec![],
+                                    1 => vec![("printer-state".to_string(), ipp::prelude::IppValue::Integer(state))],
+                                    2 => vec![("printer-state".to_string(), ipp::prelude::IppValue::Enum(*rr.pick(&[0i32, 2, 6, 7, -1])))],
+                                    _ => vec![("printer-state".to_string(), ipp::prelude::IppValue::Enum(state))],
+                                };
                                 match rr.below(4) {
                                     0 => {}
                                     1 => attrs.push(("printer-state-reasons".into(), ipp::prelude::IppValue::Keyword((*rr.pick(&["none", "paused", "media-low", "toner-empty", "media-jam", "spool-area-full", "cover-open", "door-open", "input-tray-missing", "output-tray-missing", "marker-supply-empty", "shutdown", "toner-low"])).to_string()))),
@@ -402,7 +409,7 @@ pub fn generate(prop: &str, tier: &str, r: &mut Rng, out: &mut Vec<String>) -> G
         "C15" => {
             for (kind, unit) in crate::malformed::FAMILIES {
                 let mut bytes = if thorough { 1024 } else { 4096 };
-                let top = if thorough { 1024 * 1024 } else { 256 * 1024 };
+                let top = if thorough { 2 * 1024 * 1024 } else { 1024 * 1024 };
                 for n in [1usize, 2, 7, 64] {
                     out.push(format!("cost {} {}", kind, n));
                 }
@@ -411,7 +418,7 @@ pub fn generate(prop: &str, tier: &str, r: &mut Rng, out: &mut Vec<String>) -> G
                     bytes *= 2;
                 }
             }
-            GenInfo { rule: "ten size-parameterised input families (nesting depth, set width, attributes, duplicate attributes, groups, members, unclosed begins, stray ends, maximal values, sets of collections; well-formed and malformed), n doubling from 4 KiB to 256 KiB of input (1 KiB to 1 MiB thorough) plus tiny sizes; for each the real parse is measured by a counting allocator (bytes and calls per input byte against absolute ceilings, growth factor on doubling <= 2.5, wall-clock backstop); consumed bytes compared with the model up to 4096 elements; non-trivial = distinct (family, n)".into(), exhaustive: false }
+            GenInfo { rule: "ten size-parameterised input families (nesting depth, set width, attributes, duplicate attributes, groups, members, unclosed begins, stray ends, maximal values, sets of collections; well-formed and malformed), n doubling from 4 KiB to 1 MiB of input (1 KiB to 2 MiB thorough) plus tiny sizes; for each the real blocking parse, the async parse of the whole input and the async parse of the input delivered in 64-byte and 536-byte pieces are measured by a counting allocator (bytes and calls per input byte against absolute ceilings, growth factor on doubling <= 2.5, fragmented delivery must not allocate more than twice the whole delivery, time per byte ceiling and time growth on doubling <= 3x once above 100 ms); consumed bytes compared with the model up to 4096 elements; non-trivial = distinct (family, n)".into(), exhaustive: false }
         }
         "C11" => {
             let lim = Limits { max_depth: 2, boundary: false };
@@ -510,16 +517,24 @@ pub fn generate(prop: &str, tier: &str, r: &mut Rng, out: &mut Vec<String>) -> G
         }
         "C12" => {
             let be = crate::tls::backend();
+            // every cell of {setter calls} x {root} x {certificate} with the host as a DNS name; with the host as an
+            // IP literal the sequences without a trailing opt-out (thorough: all)
+            let seqs = ["unset", "f", "t", "tf", "ft", "ftf", "ttf", "tft"];
             for client in ["blocking", "async"] {
-                for ignore in ["unset", "false", "true"] {
-                    for root in ["none", "pem", "der", "unrelated"] {
-                        for cert in ["valid", "wrongname", "expired", "selfsigned", "unknownca"] {
-                            out.push(format!("tlscase {} {} {} {} {}", be, client, ignore, root, cert));
+                for host in ["dns", "ip"] {
+                    for ignore in seqs {
+                        if host == "ip" && !thorough && !matches!(ignore, "unset" | "f" | "tf" | "t") {
+                            continue;
+                        }
+                        for root in ["none", "pem", "der", "unrelated"] {
+                            for cert in ["valid", "wrongname", "expired", "selfsigned", "unknownca"] {
+                                out.push(format!("tlscase {} {} {} {} {} {}", be, client, ignore, root, cert, host));
+                            }
                         }
                     }
                 }
             }
-            GenInfo { rule: "the complete matrix {blocking, async} x {ignore flag unset, false, true} x {no extra root, correct root as PEM, as DER, unrelated root} x server certificate {valid for host, wrong host name, expired, self-signed, signed by unknown CA} for the TLS backend this harness build links (both backends are run and merged by run.py): 120 cells per backend, each a real handshake against an in-process rustls server with certificates generated by the openssl CLI; every cell is distinct and non-trivial".into(), exhaustive: true }
+            GenInfo { rule: "the matrix {blocking, async} x {host given as DNS name, as IP literal} x {sequence of ignore_tls_errors calls: none, f, t, tf, ft, ftf, ttf, tft (IP literal in the quick tier: none, f, t, tf)} x {no extra root, correct root as PEM, as DER, unrelated root} x server certificate {valid for host (SAN DNS:localhost, IP:127.0.0.1), other host name, expired, self-signed, signed by unknown CA} for the TLS backend this harness build links (both backends are run and merged by run.py): 480 cells per backend (640 thorough), each a real handshake against an in-process rustls server with certificates generated by the openssl CLI; every cell is distinct and non-trivial; the sequences of setter calls are a sample (the theorem covers every sequence)".into(), exhaustive: false }
         }
         "C04" => {
             let n = if thorough { 200_000 } else { 3_000 };
